@@ -23,8 +23,11 @@ from props import c19
 GOOD = "# SPDX-FileCopyrightText: 2020 Jane Doe\n# SPDX-License-Identifier: MIT\n"
 
 
-def value_of(key: str, typ: str):
+def value_of(key: str, typ: str, zero: bool = False):
     import tomlkit
+    if zero and key != "version" and typ in ("int", "float", "bool", "table"):
+        # the representative of the type that Python takes for false: a wrong type stays a wrong type
+        return {"int": 0, "float": 0.0, "bool": False, "table": {}}[typ]
     if typ == "int":
         return 1 if key == "version" else 5
     if typ == "float":
@@ -59,7 +62,7 @@ def value_of(key: str, typ: str):
     raise ValueError(typ)
 
 
-def toml_for(devs: list) -> str:
+def toml_for(devs: list, zero: bool = False) -> str:
     import tomlkit
     table = {"path": "src/**", "precedence": "closest", "SPDX-FileCopyrightText": "2020 Jane", "SPDX-License-Identifier": "MIT"}
     doc = {"version": 1, "annotations": [table]}
@@ -71,7 +74,7 @@ def toml_for(devs: list) -> str:
         elif k == "annotations" and t == "array-of-tables":
             pass
         else:
-            target[k] = value_of(k, t)
+            target[k] = value_of(k, t, zero)
     return tomlkit.dumps(doc)
 
 
@@ -89,7 +92,7 @@ def build(case: dict, d: Path) -> dict:
     info = {"config": "REUSE.toml", "faults": [], "target": "src/a.py"}
     o = case["other"]
     if not o:
-        (root / "REUSE.toml").write_text(toml_for(case["devs"]))
+        (root / "REUSE.toml").write_text(toml_for(case["devs"], bool(case.get("zero"))))
     elif o == "toml_syntax":
         (root / "REUSE.toml").write_text("version = 1\n[[annotations]\npath = \n")
     elif o == "toml_not_utf8":
@@ -132,6 +135,8 @@ def build(case: dict, d: Path) -> dict:
         (root / "src" / "a.py").write_text("# SPDX-License-Identifier: MIT AND AND\nx = 1\n")
     elif o in ("covered_unreadable", "covered_vanishes"):
         info["faults"] = [str(root / "src" / "a.py")]
+    elif o == "covered_gone_after_listing":
+        info["vanish"] = "src/a.py"
     elif o == "licenseref_not_utf8":
         (root / "LICENSES" / "LicenseRef-x.txt").write_bytes(b"custom licence caf\xe9 \xff\xfe\n")
         (root / "src" / "b.py").write_text("# SPDX-FileCopyrightText: 2020 J\n# SPDX-License-Identifier: LicenseRef-x\n")
@@ -227,6 +232,31 @@ def commands(root: Path, info: dict, other: str) -> list:
     return cmds
 
 
+def _vanish_after_listing(rel: str):
+    """A covered file that the walk still lists and that is gone when its report is made: the project's file iterators
+    (shim, in this process only) delete it just before handing it out.  Returns the function that undoes the shim."""
+    import reuse.project as rp
+    originals = {n: getattr(rp.Project, n) for n in ("all_files", "subset_files")}
+
+    def wrap(orig):
+        def gen(self, *a, **k):
+            for pth in orig(self, *a, **k):
+                if str(pth).replace(os.sep, "/").endswith(rel):
+                    try:
+                        os.unlink(pth)
+                    except OSError:
+                        pass
+                yield pth
+        return gen
+    for n, f in originals.items():
+        setattr(rp.Project, n, wrap(f))
+
+    def restore():
+        for n, f in originals.items():
+            setattr(rp.Project, n, f)
+    return restore
+
+
 def run_case(case: dict) -> list:
     d = core.scratch_dir("c16-")
     real = urllib.request.urlopen
@@ -239,6 +269,7 @@ def run_case(case: dict) -> list:
             root = d / "root"
             args = dict(commands(root, info, case["other"]))[name]
             projmodel.set_faults(info["faults"])
+            restore = _vanish_after_listing(info["vanish"]) if info.get("vanish") else None
             try:
                 if case["other"] in ("covered_terminator_run", "dot_license_is_fifo", "toml_glob_run"):      # may not terminate: a real process with a time limit
                     r = core.run_reuse_subprocess(args, timeout=40)
@@ -246,6 +277,8 @@ def run_case(case: dict) -> list:
                     r = core.run_reuse(args) if not case.get("subprocess") else core.run_reuse_subprocess(args)
             finally:
                 projmodel.set_faults(())
+                if restore:
+                    restore()
             text = (r["out"] or "") + (r["err"] or "")
             read_problem = False
             must = False
@@ -292,6 +325,10 @@ def run(ctx: core.Ctx) -> int:
     for g in gens:
         cases.append({"devs": g["devs"], "other": "", "class": g["class"], "cmds": all_cmds,
                       "label": json.dumps([[d["key"], d["type"]] for d in g["devs"]])})
+    for g in gens:          # the same single deviations with the type's zero value (false, 0, 0.0, {}): two sub-commands each
+        if any(d["type"] in ("int", "float", "bool", "table") and d["key"] != "version" for d in g["devs"]):
+            cases.append({"devs": g["devs"], "other": "", "class": g["class"], "cmds": ["lint", "annotate"], "zero": True,
+                          "label": json.dumps(["zero value", [[d["key"], d["type"]] for d in g["devs"]]])})
     for i, g in enumerate(pairs):
         cases.append({"devs": g["devs"], "other": "", "class": g["class"], "cmds": [all_cmds[i % len(all_cmds)], "lint-json"],
                       "label": json.dumps([[d["key"], d["type"]] for d in g["devs"]])})
@@ -302,13 +339,13 @@ def run(ctx: core.Ctx) -> int:
               "template_bad_syntax": "grey", "dot_license_not_utf8": "valid", "licenses_same_identifier": "invalid",
               "dep5_and_nested_toml": "invalid", "covered_terminator_run": "valid",
               "two_files_fail_annotate": "valid", "three_files_fail_annotate": "valid",
-              "dot_license_is_fifo": "valid", "toml_expression_parens": "invalid", "covered_expression_parens": "valid", "toml_glob_run": "valid",
+              "covered_gone_after_listing": "valid", "dot_license_is_fifo": "valid", "toml_expression_parens": "invalid", "covered_expression_parens": "valid", "toml_glob_run": "valid",
               "template_not_utf8": "grey",
               "gitmodules_empty_path": "valid", "gitmodules_not_utf8": "valid", "ignored_name_not_utf8": "valid", "covered_name_not_utf8": "valid",
               "template_raises": "grey", "template_undefined": "grey", "template_garbles_expression": "grey", "dot_license_is_directory": "grey"}
     for o, cls in others.items():
         cmds = list(all_cmds) + (["convert-dep5"] if o.startswith("dep5") else [])
-        if o in ("covered_unreadable", "covered_vanishes"):
+        if o in ("covered_unreadable", "covered_vanishes", "covered_gone_after_listing"):
             cmds = ["lint", "lint-json", "lint-lines", "spdx", "lint-file"]
         if o in ("covered_terminator_run", "dot_license_is_fifo", "toml_glob_run"):
             cmds = ["lint", "spdx", "lint-file"]
